@@ -33,6 +33,10 @@ BASIS_OPS = {"basis_matrix"}
 ARBITRARY_OPS = {"base_point", "general_point"}
 
 
+# constructors whose arguments are Euclidean data (centres, vertices): judged on finite points only
+CONSTRUCTORS_METRIC = {"Circle", "Ellipse", "Sphere", "Cone", "Cylinder", "RegularPolygon", "from_foci", "Segment", "Polygon", "Triangle", "Rectangle", "Cuboid", "Simplex",
+                       "Polyhedron"}
+
 LINEAR_OPS = {"rotation", "translation", "reflection", "join", "meet", "contains", "__eq__", "crossratio", "dist", "angle", "is_coplanar", "is_collinear", "is_concurrent", "is_parallel", "parallel",
               "perpendicular", "project", "mirror", "harmonic_set", "is_perpendicular", "is_cocircular", "angle_bisectors", "isinf", "apply", "__mul__"}
 
@@ -241,7 +245,7 @@ def post_twin(ctx, call):
         if np.any(d > 1e-8):
             ctx.skip("twin", "components of a non-degenerate quadric (precondition not met)")
             return
-    metric = opname in {"translation", "rotation", "dist", "angle", "angles", "length", "area", "volume", "radius", "inradius", "center", "centroid", "circumcenter", "midpoint", "perpendicular",
+    metric = opname in CONSTRUCTORS_METRIC or opname in {"translation", "rotation", "dist", "angle", "angles", "length", "area", "volume", "radius", "inradius", "center", "centroid", "circumcenter", "midpoint", "perpendicular",
                         "mirror", "project", "is_perpendicular", "angle_bisectors", "is_cocircular", "foci", "parallel", "is_parallel", "normalized_array",
                         "intersection_angle", "__add__", "__sub__"}
     if metric and not _finite_points(operands):
@@ -381,6 +385,8 @@ def install(ctx):
                 continue
             if isinstance(raw, (property, types.FunctionType)):
                 core.wrap_method(c, name, post_twin)
+            elif isinstance(raw, classmethod) and name not in RAW_OPS:
+                core.wrap_method(c, name, post_twin)  # alternative constructors: Conic.from_points / from_tangent / ..., Transformation.from_points
     import geometer.transformation as T
 
     for mod, names in ((O, ["crossratio", "harmonic_set", "angle", "angle_bisectors", "dist", "is_cocircular", "is_perpendicular", "is_coplanar"]),
@@ -414,6 +420,112 @@ def g_catalogue(ctx, rng, i):
                 list(r)
         except Exception:
             pass
+
+
+def _construct(ctx, cls, *args, **kwargs):
+    """Run a constructor as a top-level call under the twin monitor: the constructed object is the result, the twin is the object
+    constructed from the rescaled arguments."""
+    call = core.Call(cls.__name__, args, kwargs, 0, cls)
+    try:
+        call.result = cls(*args, **kwargs)
+    except Exception as e:  # noqa: BLE001
+        call.exc = e
+    st = core.STATE
+    st.suspended += 1
+    try:
+        post_twin(ctx, call)
+    finally:
+        st.suspended -= 1
+    return call.result
+
+
+def g_constructors(ctx, rng, i):
+    """Every constructor / alternative constructor with arguments in general and in special position (a chord parallel to the tangent,
+    centres and vertices given in a non-normalised representative are produced by the twin monitor itself)."""
+    import geometer as g
+
+    dim = 2 + i % 2
+    n = dim + 1
+    mode = ["int", "float"][(i // 2) % 2]
+
+    def pt(finite=True):
+        v = gen.coords(rng, (dim,), 5, mode)
+        return g.Point(np.append(v, 1)) if mode == "int" else g.Point(*[float(x) for x in v])
+
+    def tr(f, *a, **k):
+        try:
+            return f(*a, **k)
+        except Exception:  # noqa: BLE001
+            return None
+
+    P = [pt() for _ in range(6)]
+    if dim == 2:
+        tr(_construct, ctx, g.Line, P[0], P[1])
+        tr(g.Conic.from_points, *P[:5])
+        l1, l2 = tr(g.Line, P[0], P[1]), tr(g.Line, P[2], P[3])
+        if l1 is not None and l2 is not None:
+            tr(g.Conic.from_lines, l1, l2)
+            # tangent in general position
+            H = [np.asarray(p.normalized_array, dtype=float) for p in P[:6]]
+            tg = np.cross(H[4], H[5])
+            if all(abs(np.linalg.det(np.array(c3))) > 1e-6 for c3 in __import__("itertools").combinations(H[:4], 3)) and all(abs(x @ tg) > 1e-6 for x in H[:4]):
+                tr(g.Conic.from_tangent, tr(g.Line, P[4], P[5]), *P[:4])
+        # tangent parallel to the chord a-c (its auxiliary point lies at infinity), and to b-d as well
+        u = gen.nonzero_vec(rng, 2, 3)
+        a = gen.coords(rng, (2,), 5, "int")
+        c = a + int(rng.integers(1, 4)) * u
+        b, d = gen.coords(rng, (2,), 5, "int"), gen.coords(rng, (2,), 5, "int")
+        q = gen.coords(rng, (2,), 6, "int")
+        tangent = tr(g.Line, g.Point(*q.tolist()), g.Point(*(q + u).tolist()))
+
+        def general(*pts):
+            # no three of the four points collinear, none of them on the tangent (otherwise the conic is not defined)
+            h = [np.append(p, 1) for p in pts]
+            t = np.cross(np.append(q, 1), np.append(q + u, 1))
+            return all(abs(np.linalg.det(np.array(c3))) > 0.5 for c3 in __import__("itertools").combinations(h, 3)) and all(abs(x @ t) > 0.5 for x in h)
+
+        if tangent is not None and general(a, b, c, d):
+            tr(g.Conic.from_tangent, tangent, g.Point(*a.tolist()), g.Point(*b.tolist()), g.Point(*c.tolist()), g.Point(*d.tolist()))
+            if general(a, b, c, b + 2 * u):
+                tr(g.Conic.from_tangent, tangent, g.Point(*a.tolist()), g.Point(*b.tolist()), g.Point(*c.tolist()), g.Point(*(b + 2 * u).tolist()))
+        tr(g.Conic.from_foci, P[0], P[1], P[2])
+        tr(g.Conic.from_crossratio, float(rng.integers(2, 6)) / 2, *P[:4])
+        tr(_construct, ctx, g.Circle, P[0], float(rng.integers(1, 5)))
+        tr(_construct, ctx, g.Ellipse, P[0], float(rng.integers(1, 5)), float(rng.integers(1, 5)))
+        tr(_construct, ctx, g.RegularPolygon, P[0], float(rng.integers(1, 4)), int(rng.integers(3, 7)))
+        tr(g.Transformation.from_points, *[(P[k], P[(k + 2) % 6]) for k in range(4)])
+        c1, c2 = tr(g.Conic.from_points, *P[:5]), tr(g.Conic.from_points, *P[1:6])
+        if c1 is not None and c2 is not None:
+            tr(g.Transformation.from_points_and_conics, P[:3], P[1:4], c1, c2)
+        tr(g.translation, P[0])
+        if l1 is not None:
+            tr(g.reflection, l1)
+    else:
+        tr(_construct, ctx, g.Line, P[0], P[1])
+        tr(_construct, ctx, g.Plane, P[0], P[1], P[2])
+        e, f = tr(g.Plane, P[0], P[1], P[2]), tr(g.Plane, P[3], P[4], P[5])
+        if e is not None and f is not None:
+            tr(g.Quadric.from_planes, e, f)
+            tr(g.reflection, e)
+        tr(_construct, ctx, g.Sphere, P[0], float(rng.integers(1, 5)))
+        tr(_construct, ctx, g.Cone, P[0], P[1], float(rng.integers(1, 4)))
+        tr(_construct, ctx, g.Cylinder, P[0], P[1], float(rng.integers(1, 4)))
+        tr(g.Transformation.from_points, *[(P[k], P[(k + 1) % 6]) for k in range(5)])
+        tr(g.translation, P[0])
+        tr(g.rotation, float(rng.uniform(-3, 3)), axis=P[1])
+        tr(_construct, ctx, g.Cuboid, P[0], P[1], P[2], P[3])
+        tr(_construct, ctx, g.RegularPolygon, P[0], float(rng.integers(1, 4)), int(rng.integers(3, 7)), axis=P[1])
+    tr(_construct, ctx, g.Segment, P[0], P[1])
+    tr(_construct, ctx, g.Triangle, P[0], P[1], P[2])
+    tr(_construct, ctx, g.Simplex, *P[:n])
+    if dim == 2:
+        tr(_construct, ctx, g.Polygon, *P[:5])
+        tr(_construct, ctx, g.Rectangle, P[0], P[1], P[2], P[3])
+    else:
+        # four coplanar points
+        v = [p.array.astype(float) for p in P[:3]]
+        p4 = g.Point(*(v[0][:3] + (v[1][:3] - v[0][:3]) + 2 * (v[2][:3] - v[0][:3])))
+        tr(_construct, ctx, g.Polygon, P[0], P[1], p4, P[2])
 
 
 L3 = gen.lattice(3, 2)
@@ -457,6 +569,7 @@ _tolerant = core.tolerant
 g_catalogue, g_eq_lattice = _tolerant(g_catalogue), _tolerant(g_eq_lattice)
 
 GROUPS = [
+    {"name": "constructors", "fn": g_constructors, "quick": 400, "thorough": 4000},
     {"name": "catalogue", "fn": g_catalogue, "quick": 48, "thorough": 480},
     {"name": "eq_lattice", "fn": g_eq_lattice, "quick": 600, "thorough": 6000},
 ]
